@@ -3,7 +3,7 @@
 Space: the union of the program enumerators (expression/statement/pattern table, numbers incl. 4300-digit boundaries, string placements,
 scope trees, fragment programs, hoisting placements, taint programs, literal arithmetic) x option sets (default, all-on, all-off,
 all-on minus rename_globals, default + literal statements; dev(1) around all three bases on the small programs; full over the rename/hoist
-group), plus all token strings of <=4 (quick) / <=5 (thorough) tokens from a 24-token alphabet for the invalid side; every installed
+group), plus all token strings of <=3 (quick) / <=4 (thorough) tokens from a 27-token alphabet for the invalid side; every installed
 interpreter through the portable worker.
 Oracle: compile(S) succeeds => minify(S, O) returns a str and compile(result) succeeds (any exception is a violation).  ast.parse(S) raises =>
 minify raises an exception of the same class (SyntaxError or subclass; ValueError where the interpreter itself raises that for NUL bytes).
@@ -38,7 +38,7 @@ def sets_wide():
 
 def bound(tier):
     from mc.checks import c02
-    return {'token_string_len': 4 if tier == 'quick' else 5, 'small_sets': len(sets_small()), 'wide_sets': len(sets_wide()),
+    return {'token_string_len': 3 if tier == 'quick' else 4, 'small_sets': len(sets_small()), 'wide_sets': len(sets_wide()),
             'interpreters': [v for v, _ in c02.interpreters(tier)] + ['3.12 (driver)']}
 
 
@@ -49,7 +49,7 @@ def tasks(tier):
     t += [('strs', tier, i, NPARTS) for i in range(NPARTS)]
     t += [('scope', tier, i, NPARTS) for i in range(NPARTS)]
     t += [('feat', tier, i, 16) for i in range(16)]
-    ntok = 64 if tier == 'quick' else 256
+    ntok = 16 if tier == 'quick' else 128
     t += [('tokens', tier, i, ntok) for i in range(ntok)]
     for v, exe in c02.interpreters(tier):
         for i in range(4):
@@ -172,7 +172,7 @@ def run_task(task):
                 check(desc, src, wide if '+' not in desc else small, res, None)
     elif kind == 'tokens':
         _, tier, part, nparts = task
-        for s in srcs.token_strings(4 if tier == 'quick' else 5, part, nparts):
+        for s in srcs.token_strings(3 if tier == 'quick' else 4, part, nparts):
             check('tokens', s, small[:2], res, None)
             res.sample({'token_string': s}, 1)
     elif kind == 'interp':
